@@ -293,3 +293,74 @@ Proof.
   revert i. induction l as [|x t IH]; intros i; cbn [nnth map]; [reflexivity|].
   destruct (i =? 0)%N; [reflexivity|]. apply IH.
 Qed.
+
+(* ---- continuation-style rules for symbolic execution ---- *)
+Lemma bs_set1 x e st z : e st = Some z -> bs (SSet x e) st (ONormal (setV st x z)).
+Proof. intros H. pose proof (bs_set x e st) as B. unfold do_set in B. rewrite H in B. exact B. Qed.
+Lemma bs_load1 x a i st k z : i st = Some k -> 0 <= k -> nnth (Z.to_N k) (A st a) = Some z ->
+  bs (SLoad x a i) st (ONormal (setV st x z)).
+Proof.
+  intros H Hk Hn. pose proof (bs_load x a i st) as B. unfold do_load in B. rewrite H in B.
+  destruct (Z.ltb_spec k 0); [lia|]. rewrite Hn in B. exact B.
+Qed.
+Lemma bs_store1 a i v st k z : i st = Some k -> v st = Some z -> 0 <= k -> (Z.to_N k < nlen (A st a))%N ->
+  bs (SStore a i v) st (ONormal (setA st a (nset (Z.to_N k) z (A st a)))).
+Proof.
+  intros H Hv Hk Hn. pose proof (bs_store a i v st) as B. unfold do_store in B. rewrite H, Hv in B.
+  destruct (Z.ltb_spec k 0); [lia|]. destruct (N.ltb_spec (Z.to_N k) (nlen (A st a))); [exact B|lia].
+Qed.
+Lemma bs_make1 a n st k : n st = Some k -> 0 <= k -> bs (SMake a n) st (ONormal (setA st a (nrep 0 (Z.to_N k)))).
+Proof.
+  intros H Hk. pose proof (bs_make a n st) as B. unfold do_make in B. rewrite H in B.
+  destruct (Z.ltb_spec k 0); [lia|]. exact B.
+Qed.
+Lemma bs_ret1 rs st vs : eval_rs rs st = Some vs -> bs (SRet rs) st (ORet vs st).
+Proof. intros H. pose proof (bs_ret rs st) as B. unfold do_ret in B. rewrite H in B. exact B. Qed.
+
+Lemma bs_seq_set x e st z s2 o : e st = Some z -> bs s2 (setV st x z) o -> bs (SSeq (SSet x e) s2) st o.
+Proof. intros H B. eapply bs_seq; [apply bs_set1; exact H | exact B]. Qed.
+Lemma bs_seq_load x a i st k z s2 o : i st = Some k -> 0 <= k -> nnth (Z.to_N k) (A st a) = Some z ->
+  bs s2 (setV st x z) o -> bs (SSeq (SLoad x a i) s2) st o.
+Proof. intros H Hk Hn B. eapply bs_seq; [eapply bs_load1; eauto | exact B]. Qed.
+Lemma bs_seq_store a i v st k z s2 o : i st = Some k -> v st = Some z -> 0 <= k -> (Z.to_N k < nlen (A st a))%N ->
+  bs s2 (setA st a (nset (Z.to_N k) z (A st a))) o -> bs (SSeq (SStore a i v) s2) st o.
+Proof. intros H Hv Hk Hn B. eapply bs_seq; [eapply bs_store1; eauto | exact B]. Qed.
+Lemma bs_seq_make a n st k s2 o : n st = Some k -> 0 <= k ->
+  bs s2 (setA st a (nrep 0 (Z.to_N k))) o -> bs (SSeq (SMake a n) s2) st o.
+Proof. intros H Hk B. eapply bs_seq; [eapply bs_make1; eauto | exact B]. Qed.
+(* (s1; s2); s3  =  s1; (s2; s3) *)
+Lemma bs_seq_assoc s1 s2 s3 st o : bs (SSeq s1 (SSeq s2 s3)) st o -> bs (SSeq (SSeq s1 s2) s3) st o.
+Proof.
+  intros H. inversion H; subst.
+  - match goal with H2 : bs (SSeq s2 s3) _ _ |- _ => inversion H2; subst end.
+    + eapply bs_seq; [eapply bs_seq; eauto | eauto].
+    + eapply bs_seq_stop; [eapply bs_seq; eauto | eauto].
+  - eapply bs_seq_stop; [eapply bs_seq_stop; eauto | eauto].
+Qed.
+Lemma bs_seq_skip s st o : bs s st o -> bs (SSeq SSkip s) st o.
+Proof. intros H. eapply bs_seq; [apply bs_skip | exact H]. Qed.
+(* an if in front of a continuation *)
+Lemma bs_seq_if_true c s1 s2 s3 st o : c st = Some true -> bs (SSeq s1 s3) st o -> bs (SSeq (SIf c s1 s2) s3) st o.
+Proof.
+  intros Hc H. inversion H; subst.
+  - eapply bs_seq; [eapply bs_if_true; eauto | eauto].
+  - eapply bs_seq_stop; [eapply bs_if_true; eauto | eauto].
+Qed.
+Lemma bs_seq_if_false c s1 s2 s3 st o : c st = Some false -> bs (SSeq s2 s3) st o -> bs (SSeq (SIf c s1 s2) s3) st o.
+Proof.
+  intros Hc H. inversion H; subst.
+  - eapply bs_seq; [eapply bs_if_false; eauto | eauto].
+  - eapply bs_seq_stop; [eapply bs_if_false; eauto | eauto].
+Qed.
+(* a statement that returns ends the sequence *)
+Lemma bs_seq_ret rs st vs s2 : eval_rs rs st = Some vs -> bs (SSeq (SRet rs) s2) st (ORet vs st).
+Proof. intros H. eapply bs_seq_stop; [apply bs_ret1; exact H | discriminate]. Qed.
+
+(* one iteration in front of an existentially quantified rest of the loop *)
+Lemma bs_for_step_ex c p b st st1 st2 (Q P : state -> Prop) :
+  c st = Some true -> bs b st (ONormal st1) -> bs p st1 (ONormal st2) ->
+  (exists st', bs (SFor c p b) st2 (ONormal st') /\ Q st') -> (forall st', Q st' -> P st') ->
+  exists st', bs (SFor c p b) st (ONormal st') /\ P st'.
+Proof.
+  intros Hc Hb Hp (st' & Hl & HQ) HQP. exists st'. split; [|auto]. eapply bs_for_step; eauto.
+Qed.
